@@ -27,7 +27,10 @@ SPEC = dict(
          "collector is given), Stop is started and the worker released once Stop has closed the input channels; the rest: data "
          "arriving after the stops, transmission stopped first, double stops, clocks running between the stops, Agent.Stop). Runs on a real InMemCollector + real DirectTransmission + in-process fake Honeycomb. "
          "10 % of the histories are ROUTER histories instead: the application wired as cmd/refinery/main.go wires it (inject graph: "
-         "real app.App with both route.Router on 127.0.0.1, real InMemCollector, two real DirectTransmission, fake Honeycomb), "
+         "every object main.go provides: MockConfig, FilePeers, LocalPubSub, real app.App with both route.Router on 127.0.0.1, "
+         "real InMemCollector, two real DirectTransmission, DeterministicSharder, MultiMetrics, SamplerFactory, StressRelief, "
+         "health.Health, ConfigWatcher, the OpAMP agent when enabled; fake Honeycomb), configuration drawn from OpAMP.Enabled "
+         "{0,1} x StressRelief.Mode {never,monitor,always} x DryRun {0,1} x upstream compression {0,1}, "
          "1-4 complete uploads / uploads left in flight (Expect: 100-continue, half the body), cut at every prefix and followed "
          "by startstop.Stop over g.Objects() with the uploads completed 50 ms later. "
          "A fifth of the histories are RETRY-AFTER histories instead: a real DirectTransmission (fake clock, MaxBatchSize 1-3) in "
@@ -69,7 +72,7 @@ SPEC = dict(
              "before waiting (a worker between keep decision and hand-over panics; observed through a panic-time hook, signature "
              "C36:stop-panics:send-on-closed-channel); the stop sequence (startstop.Stop aborts at the first error; Router.Stop = Shutdown with a grace period) stops every "
              "component whenever what is in flight finishes within the grace period (stop_sequence_runs_all; a 60 ns grace aborts at the "
-             "router), observed on the real inject graph (C36:stop-aborted:router-error / component-not-stopped); "
+             "router), observed on the real inject graph for every configuration (C36:stop-aborted:router-error / panic / component-not-stopped); "
              "the shutdown flush honours Retry-After (stop_flush_honours_retry_after: with Clock.Sleep as coded every "
              "accepted event, pending or already asleep, is delivered by the time Stop returns and no retry precedes the announced "
              "instant; refuted for a wait that Stop cuts short); the full statement is proved for the proposed repair (fixed = true); both agent loops (healthCheck, reportUsagePeriodically with "
